@@ -110,16 +110,20 @@ def run_coqc(path, timeout=600, extra=()):
         return 124, (e.stdout or ''), 'TIMEOUT after %ds' % timeout, time.time() - t0
 
 
-def make_library(timeout=1800):
-    """Build the hand-written library (full .vo). No-op when up to date."""
-    mk = os.path.join(COQ, 'Makefile')
-    if not os.path.exists(mk) or os.path.getmtime(mk) < os.path.getmtime(
-            os.path.join(COQ, '_CoqProject')):
+def make_library(timeout=3000):
+    """Build the hand-written library (full .vo) from coq/parts/*.files.
+    No-op when up to date. Serialised by a file lock: several checks may run at once."""
+    import fcntl
+    os.makedirs(BUILD, exist_ok=True)
+    with open(os.path.join(BUILD, '.coq.lock'), 'w') as lk:
+        fcntl.flock(lk, fcntl.LOCK_EX)
+        subprocess.run([sys.executable, os.path.join(VERIF, 'tools', 'gen_coqproject.py')],
+                       check=True, stdout=subprocess.DEVNULL)
         subprocess.run(['coq_makefile', '-f', '_CoqProject', '-o', 'Makefile'],
-                       cwd=COQ, check=True, stdout=subprocess.DEVNULL)
-    p = subprocess.run(['make', '-j%d' % NPROC], cwd=COQ, stdout=subprocess.PIPE,
-                       stderr=subprocess.STDOUT, timeout=timeout, text=True)
-    return p.returncode, p.stdout
+                       cwd=COQ, check=True, stdout=subprocess.DEVNULL, stderr=subprocess.DEVNULL)
+        p = subprocess.run(['make', '-j%d' % NPROC], cwd=COQ, stdout=subprocess.PIPE,
+                           stderr=subprocess.STDOUT, timeout=timeout, text=True)
+        return p.returncode, p.stdout
 
 
 def grep_forbidden(paths):
@@ -159,13 +163,17 @@ def parse_nat_lists(out):
 # known findings
 # ----------------------------------------------------------------------------
 def load_findings():
-    path = os.path.join(VERIF, 'known_findings.jsonl')
+    paths = [os.path.join(VERIF, 'known_findings.jsonl')]
+    extra = os.environ.get('VERIF_EXTRA_FINDINGS')      # development aid only
+    if extra:
+        paths.append(extra)
     out = []
-    if os.path.exists(path):
-        for line in open(path):
-            line = line.strip()
-            if line and not line.startswith('#'):
-                out.append(json.loads(line))
+    for path in paths:
+        if os.path.exists(path):
+            for line in open(path):
+                line = line.strip()
+                if line and not line.startswith('#'):
+                    out.append(json.loads(line))
     return out
 
 
